@@ -84,14 +84,24 @@ def parseLine (line : Str) : Except Err Row :=
 
 def eofMark : Str := ['-', '-', ' ', 'E', 'O', 'F']
 
-/-- The lines of `__init__`'s loop: cut at `-- EOF`, strip, split on newlines, drop the header,
-sort (code-point order). -/
+/-- The data lines in file order: cut at `-- EOF`, strip, split on newlines, drop the header. -/
+def rawLines (text : Str) : List Str :=
+  (Dedup.splitOn '\n' (strip (cutAt eofMark text))).drop 1
+
+/-- The lines in the order `__init__`'s loop visits them: `sorted(...)` (code-point order). -/
 def sortedLines (text : Str) : List Str :=
-  let tsv := strip (cutAt eofMark text)
-  ((Dedup.splitOn '\n' tsv).drop 1).mergeSort fun a b => decide (a ≤ b)
+  (rawLines text).mergeSort fun a b => decide (a ≤ b)
+
+def okLine (line : Str) : Bool := match parseLine line with | .ok _ => true | .error _ => false
+def parseLineD (line : Str) : Row := match parseLine line with | .ok r => r | .error _ => ([], [])
+
+/-- Every line must unpack (the only exception class is `ValueError`, so which line fails first is
+not observable). -/
+def parseAll (lines : List Str) : Except Err (List Row) :=
+  if lines.all okLine then .ok (lines.map parseLineD) else .error .valueError
 
 /-- The rows in the order `__init__` processes them. -/
-def parseTsv (text : Str) : Except Err (List Row) := (sortedLines text).mapM parseLine
+def parseTsv (text : Str) : Except Err (List Row) := parseAll (sortedLines text)
 
 /-! ### the translation state machine -/
 
